@@ -1,1 +1,85 @@
-theorem C05_placeholder : True := trivial
+import JmesVerif.Props.C03
+import JmesVerif.Props.C06
+import JmesVerif.Props.C07
+import JmesVerif.Lemmas.InterpFuel
+/-!
+# C05 — compile and search are total: no panic, abort or hang on any input
+
+What a theorem about the model can carry (recursion *depth* and loop bounds; stack bytes and
+seconds are runtime quantities — this property is **partial by nature**):
+
+* the lexer and the parser terminate on every input within a bound linear in its length
+  (`C05_lexer_fuel_stable`, `C05_parser_fuel_sufficient`): no loop runs forever, recursion depth
+  ≤ 8·|tokens| + 8;
+* number tokens fit `i32` with room for negation (`C05_number_tokens_no_overflow`);
+* the slice loops never overflow `i32`, never index out of bounds and stop within `len + 1`
+  iterations, for every start/stop/step (`C05_slice_total`); negative indexes are total by construction;
+* after validation no builtin reaches `unreachable!()` and the validator itself cannot panic
+  (`C05_builtins_no_unreachable`, `C05_validator_no_panic`);
+* `search` terminates on every JSON document for every expression whose expression references stay
+  in the expref-typed parameters of `map/sort_by/max_by/min_by` (`C05_search_terminates`), and
+  evaluation results never depend on surplus fuel (`C05_interp_fuel_monotone`);
+* **negative result (known finding F13)**: a grammatical expression in which an expression
+  reference reaches the data diverges for every fuel on every document (`C05_omega_diverges`).
+Unbounded nesting depth (F12) is outside what fuel can express: recursion depth is linear in the
+input, the stack is finite.
+-/
+namespace JmesVerif
+
+theorem C05_parser_fuel_sufficient (ts : List PT) : parseTokens ts ≠ .error .fuel :=
+  parseTokens_no_fuel ts
+
+theorem C05_lexer_fuel_stable (total : Nat) (cs : List Char) (acc : List (Nat × Tok)) (k : Nat) :
+    Lexer.loop total (cs.length + 1 + k) cs acc = Lexer.loop total (cs.length + 1) cs acc :=
+  lexLoop_fuel_stable' total cs acc k
+
+theorem C05_number_tokens_no_overflow (cs : List Char) (ts : List PT) (h : tokenize cs = .ok ts) (p : Nat) (n : Int)
+    (hm : (p, Tok.number n) ∈ ts) : -2147483647 ≤ n ∧ n ≤ 2147483647 :=
+  C03_number_tokens_in_range cs ts h p n hm
+
+/-- the slice code is total: for every array (length within i32), bounds and non-zero step it
+returns a list (no `Fault`: no overflow, no out-of-bounds index, no runaway loop) -/
+theorem C05_slice_total (xs : List α) (start stop : Option Int) (step : Int) (hstep : step ≠ 0)
+    (hlen : (xs.length : Int) ≤ I32_MAX) : ∃ ys, sliceList xs start stop step = .ok ys :=
+  ⟨_, C07_slice_eq_python xs start stop step hstep hlen⟩
+
+theorem C05_builtins_no_unreachable (rt : Registry) (fuel : Nat) (b : Builtin) (args : List Val) (off : Nat)
+    (m : String) (h : callFn rt (fuel + 1) (.builtin b) args off = .error (.panic m)) :
+    b.usesExpref = true ∧ ∃ a xs, Val.expref a ∈ args ∧ Val.arr xs ∈ args ∧
+      ∃ f x o, x ∈ xs ∧ interp rt f x a o = .error (.panic m) :=
+  builtin_no_panic rt fuel b args off m h
+
+theorem C05_validator_no_panic (s : Sig) (args : List Val) (off : Nat) (m : String) :
+    s.validate args off ≠ .error (.panic m) :=
+  validate_no_panic s args off m
+
+/-- **Termination.**  Every disciplined expression terminates on every JSON document, with a
+JSON result. -/
+theorem C05_search_terminates (a : Ast) (ha : a.Disciplined = true) (d : Val) (hd : d.isJson = true) (off : Nat) :
+    ∃ n r, r ≠ .error .fuel ∧ (∀ v off', r = .ok (v, off') → v.isJson = true) ∧
+      ∀ fuel, n ≤ fuel → interp Registry.default fuel d a off = r :=
+  interp_converges Registry.default regOK_default a ha d hd off
+
+theorem C05_interp_fuel_monotone (rt : Registry) (fuel : Nat) (d : Val) (a : Ast) (off : Nat) (r : ERes Val)
+    (h : interp rt fuel d a off = r) (hr : r ≠ .error .fuel) :
+    ∀ fuel', fuel ≤ fuel' → interp rt fuel' d a off = r :=
+  interp_mono rt fuel d a off r h hr
+
+/-- **F13.**  `to_array(not_null(&map(@[0], [@]))) | map(@[0], [@])` compiles, and searching *any*
+document with it never terminates: the model is out of fuel for every fuel. -/
+theorem C05_omega_diverges : match parseExpr omegaSrc.toList with
+    | .ok (_, a) => ∀ (fuel : Nat) (d : Val), search Registry.default fuel a d = .error .fuel
+    | .error _ => False :=
+  omegaSrc_diverges
+
+end JmesVerif
+
+#print axioms JmesVerif.C05_parser_fuel_sufficient
+#print axioms JmesVerif.C05_lexer_fuel_stable
+#print axioms JmesVerif.C05_number_tokens_no_overflow
+#print axioms JmesVerif.C05_slice_total
+#print axioms JmesVerif.C05_builtins_no_unreachable
+#print axioms JmesVerif.C05_validator_no_panic
+#print axioms JmesVerif.C05_search_terminates
+#print axioms JmesVerif.C05_interp_fuel_monotone
+#print axioms JmesVerif.C05_omega_diverges
